@@ -131,6 +131,11 @@ def obligations(tier, seed):
         a, b_ = rnd.choice(must), rnd.choice(reqs)
         for d in (False, True):
             obs.append(history_ob(M, [(a[0], a[1], False, rnd.randrange(3)), (b_[0], b_[1], b_[2], rnd.randrange(3))], f"hist.k3.{i}.{'dis' if d else 'con'}", disc=d))
+    # states in which a module has a freed in-slot AND a live link on a non-zero out-slot of its source (the case in which
+    # the optional slot chunk must be written): a -> out, out -> b, a -> b, then any request (e.g. ~out -> b)
+    for j, pre in enumerate([[(2, 1, False, 0), (1, 4, False, 0), (2, 4, False, 0)], [(2, 4, False, 0), (2, 1, False, 0), (4, 1, False, 0)]]):
+        for d in (False, True):
+            obs.append(history_ob(M, pre, f"hist.freed.{j}.{'dis' if d else 'con'}", disc=d))
     if tier == "thorough":
         reqs4 = c07.all_requests(4)
         for i in range(12):
